@@ -92,6 +92,21 @@ CHECKS = {
             "Each byte string x driver x history; bytes, contentSize, sha256 and filename compared with the source file and hashlib at each stage; the IH5 deletion-marker value must be rejected without effect.",
             "fixed history templates (three)",
             "4 C17"),
+    "C12": ("exploration",
+            "round-trip monitor over installed schemas, harness families and schema classes generated from the field-type grammar, with a type-directed instance generator and a YAML/JSON-hostile boundary corpus",
+            "Every generated valid instance is serialised to bytes, JSON and YAML (string and file) and parsed back with the same schema; equality, second-round-trip byte identity, constants present in the output and ignored on input.",
+            "candidates are validated by constructing the model; acceptance rate reported and guarded by a floor",
+            "4 C12"),
+    "C13": ("exploration",
+            "soundness monitor for check_types: all ordered (parent type, child type) pairs of a type pool are turned into real Parent/Child classes; for every accepted pair each boundary value valid for the child must be accepted by the parent; plus ancestor parsing of generated instances of registered schemas",
+            "All pairs over ~46 (quick) / ~70 (thorough) types x 47 boundary values; instances of installed schemas and families against every ancestor; extra-field policy refusals.",
+            "only soundness of acceptance is demanded; value corpus is finite",
+            "4 C13"),
+    "C14": ("exploration",
+            "specification-oracle monitor for partial merge (identities, associativity, concatenation/union, no loss, conflict behaviour, to/from partial) on correlated triples, plus an icontract snapshot/ensure frame contract installed from outside on PartialModel.merge_with that also observes the merges made inside merge() and harvest()",
+            "Partials of generated classes and installed schemas obtained through parse_obj / JSON / YAML / to_partial / cast / metadata_loader+harvest; every law compared against a 30-line structural specification; contract evaluations counted.",
+            "structural equality; chain condition for nested classes as stated in the property",
+            "4 C14"),
 }
 
 NOT_YET = {
